@@ -347,6 +347,13 @@ func genC13(r *rand.Rand, tier string, env *Env) []Case {
 		cases = append(cases, Case{Kind: "fixed", Ops: []Op{{"renumber.processYaml", [][]byte{[]byte("920100"), []byte(f)}}},
 			Oracles: []Op{{"c13.inproc", [][]byte{[]byte("920100"), []byte(f)}}}})
 	}
+	{
+		// one line of more than a mebibyte (a request body in a test): every line after it is still there
+		long := "          data: \"" + strings.Repeat("A", 1<<20+r.Intn(4096)) + "\""
+		content := "---\ntests:\n  - test_id: 4\n    stages:\n" + long + "\n  - test_id: 9\n    desc: after the long line\n  - test_title: 920100-7\n"
+		cases = append(cases, Case{Kind: "line-over-1MiB", Ops: []Op{{"renumber.processYaml", [][]byte{[]byte("920100"), []byte(content)}}},
+			Oracles: []Op{{"c13.inproc", [][]byte{[]byte("920100"), []byte(content)}}, {"c13.cli", [][]byte{[]byte("920100"), []byte(".yaml"), []byte(content)}}}})
+	}
 	for i := 0; i < n; i++ {
 		ruleId := fmt.Sprintf("9%05d", r.Intn(100000))
 		content, nontrivial := genYamlTestFile(r, ruleId)
